@@ -131,6 +131,8 @@ func (cl call) value() interface{} {
 		return tokMarshaler{cl.toks}
 	case cl.form == "writerto":
 		return tokWriterTo{cl.toks}
+	case strings.HasPrefix(cl.form, "struct:big"):
+		return bigValue(cl.form[7:])
 	case strings.HasPrefix(cl.form, "struct:"):
 		k, _ := strconv.Atoi(cl.form[7:])
 		return structPool[k%len(structPool)]
@@ -283,10 +285,19 @@ func exec(s *xmpp.Session, cl call) (status string) {
 				err = s.EncodeElement(ctx, cl.value(), *cl.start)
 			case "tw":
 				w := s.TokenWriter()
-				for _, t := range cl.toks {
+				fl := flushPositions(cl.form)
+				for i, t := range cl.toks {
+					if fl[i] {
+						if err = w.Flush(); err != nil {
+							break
+						}
+					}
 					if err = w.EncodeToken(xml.CopyToken(t)); err != nil {
 						break
 					}
+				}
+				if err == nil && fl[len(cl.toks)] {
+					err = w.Flush()
 				}
 				if e := w.Close(); err == nil {
 					err = e
@@ -295,7 +306,11 @@ func exec(s *xmpp.Session, cl call) (status string) {
 				var resp xmlstream.TokenReadCloser
 				switch cl.entry {
 				case "iq":
-					resp, err = s.SendIQ(cancelled, reader(cl.toks))
+					if strings.HasPrefix(cl.form, "struct:") {
+						resp, err = s.EncodeIQ(cancelled, cl.value())
+					} else {
+						resp, err = s.SendIQ(cancelled, reader(cl.toks))
+					}
 				case "msg":
 					resp, err = s.SendMessage(cancelled, reader(cl.toks))
 				default:
@@ -375,6 +390,7 @@ type ctxT struct {
 	r      *common.Run
 	sess   map[cfgT]*common.RawSession
 	failed bool
+	stalls int
 }
 
 func (c *ctxT) fail(clause, key string, lines []string, detail string) {
@@ -485,8 +501,15 @@ func (c *ctxT) one(cfg cfgT, cl call, class string) {
 		if status == "ok" {
 			// anything a later flush still brings out was not on the connection when
 			// the call returned
-			if w := rs.S.TokenWriter(); w.Close() == nil {
-				late = rs.Out.Take()
+			if !common.WithTimeout(5*time.Second, func() {
+				if w := rs.S.TokenWriter(); w.Close() == nil {
+					late = rs.Out.Take()
+				}
+			}) {
+				c.fail("lock-released", cl.entry, lines, "the output lock is still held after the call returned")
+				delete(c.sess, cfg)
+				r.Line(line, "STALL -")
+				return
 			}
 		}
 	}
@@ -518,6 +541,9 @@ func (c *ctxT) genCall(rnd *common.Rand, big int) call {
 	switch entry {
 	case "send", "tw":
 		cl.toks = genElement(rnd, 0, true, big)
+		if entry == "tw" && rnd.Chance(2, 3) {
+			cl.form = randomFlushes(rnd, len(cl.toks))
+		}
 		if entry == "send" && rnd.Chance(1, 4) {
 			// trailing tokens after the first element must not be sent
 			cl.toks = append(cl.toks, genElement(rnd, 1, true, 0)...)
@@ -756,7 +782,7 @@ func (c *ctxT) concurrent(cfg cfgT, rnd *common.Rand, nG, nK int, caseNo int) {
 	if finished {
 		// bring out what Encode/EncodeElement left in the buffer for WriterTo values (known
 		// finding, reported by the sequential cases); atomicity is judged on the complete stream
-		rs.S.TokenWriter().Close()
+		finished = common.WithTimeout(10*time.Second, func() { rs.S.TokenWriter().Close() })
 	}
 	wire := rs.Out.Bytes()
 	r.Mark("case conc %d", caseNo)
@@ -962,7 +988,26 @@ func Run(r *common.Run) error {
 		return nil
 	}
 
+	if r.Race() {
+		// race-detector run: only the concurrent scenarios, more of them
+		for i := 0; i < 150; i++ {
+			c.concurrent(cfgs[i%2], r.Rnd, 2+r.Rnd.Intn(15), 2+r.Rnd.Intn(6), i)
+			if i%3 == 0 {
+				c.multiSession(r.Rnd, i)
+			}
+		}
+		return nil
+	}
 	r.Mark("case corpus")
+	for _, n := range []int{300, 3000} {
+		c.cross(n, []string{"enc", "enc"})
+		c.cross(n, []string{"enc", "iq", "enc"})
+		c.cross(n, []string{"iq", "enc"})
+	}
+	for _, cfg := range cfgs {
+		c.flushCorpus(cfg)
+		c.faultCorpus(cfg)
+	}
 	for _, cfg := range cfgs {
 		c.sameStartTwice(cfg)
 		for _, cl := range corpus() {
@@ -978,9 +1023,18 @@ func Run(r *common.Run) error {
 		}
 		c.one(cfgs[rnd.Intn(2)], c.genCall(rnd, big), "random")
 	}
+	nFault := r.Pick(150, 3000)
+	for i := 0; i < nFault; i++ {
+		toks := genElement(rnd, 0, true, 0)
+		c.fault(cfgs[rnd.Intn(2)], pickS(rnd, []string{"reader", "tw", "badtok", "badend"}), toks, 1+rnd.Intn(len(toks)-1), genElement(rnd, 0, true, 0))
+	}
 	nConc := r.Pick(30, 300)
 	for i := 0; i < nConc; i++ {
 		c.concurrent(cfgs[i%2], rnd, 2+rnd.Intn(15), 2+rnd.Intn(6), i)
+	}
+	nMulti := r.Pick(10, 100)
+	for i := 0; i < nMulti; i++ {
+		c.multiSession(rnd, i)
 	}
 	r.Notes = append(r.Notes, "the agreement of the value forms (token reader, Marshaler, WriterTo, struct) is checked on the implementation by the oracle; the model sees the argument's token list")
 	return nil
